@@ -167,6 +167,11 @@ struct iauth_request {
      */
     struct event *timeout;
 
+    /** Non-zero once #timeout has fired: soft holds no longer delay
+     * the client.
+     */
+    int timed_out;
+
     /** Boolean flags of which events have occurred for the client.
      * This includes indications of which fields are set.
      * Indexed by enum iauth_flags.
